@@ -104,6 +104,8 @@ func (w *world) exec(op string) (string, string) {
 			line, ans = w.execHW(f[1:])
 		case "hc":
 			line, ans = w.execHC(f[1:])
+		case "mn":
+			ans = w.execMN(f[1:])
 		case "lk":
 			line, ans = w.execLK(f[1:])
 		case "lm":
@@ -219,6 +221,7 @@ func main() {
 	add(prCorpus...)
 	add(evCorpus...)
 	add(itCorpus...)
+	add([]string{"mn 0 0 3 1 0", "mn 2 1 4 0 0 1", "mn 0 0 2 2", "mn 1 0 5 0", "mn 0 2 3 3 1 2 0"})
 	gen := func(n int, g func(rng *hx.Rng) []string) {
 		for i := 0; i < n; i++ {
 			rng, sub := r.Rng.Fork()
@@ -231,6 +234,7 @@ func main() {
 	gen(1500*r.Scale, func(rng *hx.Rng) []string { return genPR(rng, 3+rng.Intn(14)) })
 	gen(2500*r.Scale, func(rng *hx.Rng) []string { return genEV(rng, 6+rng.Intn(30)) })
 	gen(1500*r.Scale, genIT)
+	gen(150*r.Scale, genMN)
 	runAll(r, subs, cases, 64)
 	// stress cases: few at a time, each starts its own goroutines
 	rng, _ := r.Rng.Fork()
